@@ -648,8 +648,15 @@ def _strip_tail_breaks(stmts):
     if not stmts:
         return None
     last = stmts[-1]
-    if _has_loop_exit(stmts[:-1]):
-        return None
+    for i, st in enumerate(stmts[:-1]):
+        if _has_loop_exit([st]):
+            # an early exit `if t: ..; break` followed by the rest: the rest runs exactly when t is false -> if/else
+            if isinstance(st, ast.If) and not st.orelse:
+                a, b = _strip_tail_breaks(st.body), _strip_tail_breaks(stmts[i + 1:])
+                if a is not None and b is not None:
+                    new = ast.copy_location(ast.If(test=st.test, body=a or [ast.copy_location(ast.Pass(), st)], orelse=b), st)
+                    return list(stmts[:i]) + [new]
+            return None
     if isinstance(last, ast.Break):
         return list(stmts[:-1])
     if isinstance(last, ast.If) and last.orelse:
